@@ -5,13 +5,13 @@ use shopify_function_provider as provider;
 use shopify_function_wasm_api::Context;
 
 #[derive(Clone, Debug)]
-pub enum Op { Bool(u32), Null, I32(i32), F64(u64), Str(Vec<u8>), Intern(Vec<u8>), IStr(usize), SObj(usize), FObj, SArr(usize), FArr, Fin }
+pub enum Op { Bool(u32), Null, I32(i32), F64(u64), Str(Vec<u8>), Intern(Vec<u8>), IStr(usize), SObj(usize), FObj, SArr(usize), FArr, Fin, Reinit }
 
 pub fn op_txt(op: &Op) -> String {
     match op {
         Op::Bool(v) => format!("BOOL {}", v), Op::Null => "NULL".into(), Op::I32(z) => format!("I32 {}", z), Op::F64(b) => format!("F64 {:x}", b),
         Op::Str(s) => format!("STR {}", hex(s)), Op::Intern(s) => format!("INTERN {}", hex(s)), Op::IStr(i) => format!("ISTR {}", i),
-        Op::SObj(n) => format!("SOBJ {}", n), Op::FObj => "FOBJ".into(), Op::SArr(n) => format!("SARR {}", n), Op::FArr => "FARR".into(), Op::Fin => "FIN".into(),
+        Op::SObj(n) => format!("SOBJ {}", n), Op::FObj => "FOBJ".into(), Op::SArr(n) => format!("SARR {}", n), Op::FArr => "FARR".into(), Op::Fin => "FIN".into(), Op::Reinit => "REINIT".into(),
     }
 }
 pub fn parse_op(line: &str) -> Option<Op> {
@@ -19,7 +19,7 @@ pub fn parse_op(line: &str) -> Option<Op> {
     Some(match t.as_slice() {
         ["BOOL", v] => Op::Bool(v.parse().ok()?), ["NULL"] => Op::Null, ["I32", z] => Op::I32(z.parse().ok()?), ["F64", b] => Op::F64(u64::from_str_radix(b, 16).ok()?),
         ["STR", h] => Op::Str(unhex(h)), ["INTERN", h] => Op::Intern(unhex(h)), ["ISTR", i] => Op::IStr(i.parse().ok()?),
-        ["SOBJ", n] => Op::SObj(n.parse().ok()?), ["FOBJ"] => Op::FObj, ["SARR", n] => Op::SArr(n.parse().ok()?), ["FARR"] => Op::FArr, ["FIN"] => Op::Fin,
+        ["SOBJ", n] => Op::SObj(n.parse().ok()?), ["FOBJ"] => Op::FObj, ["SARR", n] => Op::SArr(n.parse().ok()?), ["FARR"] => Op::FArr, ["FIN"] => Op::Fin, ["REINIT"] => Op::Reinit,
         _ => return None,
     })
 }
@@ -42,6 +42,7 @@ pub fn exec(op: &Op, api: bool) -> String {
     let r = std::panic::catch_unwind(|| -> String {
         let st: usize = match op {
             Op::Fin => { let (r, bytes) = provider::write::shopify_function_output_finalize_and_return_msgpack_bytes(); return format!("FIN {} {}", r as usize, digest(&bytes)); }
+            Op::Reinit => { provider::initialize_from_msgpack_bytes(vec![0xc0]); return "REINIT".to_string(); }
             Op::Intern(s) => {
                 let r = provider::shopify_function_intern_utf8_str(s.len());
                 unsafe { std::ptr::copy(s.as_ptr(), (r as usize) as *mut u8, s.len()) };
@@ -68,10 +69,35 @@ pub fn exec(op: &Op, api: bool) -> String {
     r.unwrap_or_else(|_| "PANIC".into())
 }
 
+static STREAM: std::sync::atomic::AtomicBool = std::sync::atomic::AtomicBool::new(false);
+fn stream_obs() -> bool { STREAM.load(std::sync::atomic::Ordering::Relaxed) }
+
+/// Child side of the crash isolation.
+pub fn child_main() {
+    use std::io::{BufRead, Write};
+    STREAM.store(true, std::sync::atomic::Ordering::Relaxed);
+    let stdin = std::io::stdin(); let mut id = 0usize; let mut api = false; let mut ops: Vec<Op> = vec![];
+    for line in stdin.lock().lines() {
+        let line = line.unwrap(); let t: Vec<&str> = line.split_whitespace().collect();
+        match t.as_slice() {
+            ["CASE", i, _w, m] => { id = i.parse().unwrap(); api = *m == "api"; ops.clear(); }
+            ["END"] => { let _ = run_case(id, api, ops.clone()); println!("DONE"); std::io::stdout().flush().unwrap(); }
+            _ => if let Some(op) = parse_op(&line) { ops.push(op) },
+        }
+    }
+}
+
+fn block_lines(id: usize, api: bool, ops: &[Op]) -> Vec<String> {
+    let mut v = vec![format!("CASE {} {} {}", id, usize::BITS, if api { "api" } else { "prov" })];
+    for op in ops { v.push(op_txt(op)); }
+    v.push("END".into()); v
+}
+
 pub fn run_case(id: usize, api: bool, ops: Vec<Op>) -> Vec<String> {
     std::thread::Builder::new().stack_size(16 << 20).spawn(move || {
+        use std::io::Write;
         provider::initialize_from_msgpack_bytes(vec![0xc0]);
-        ops.iter().map(|op| format!("{} {}", id, exec(op, api))).collect()
+        ops.iter().map(|op| { let l = format!("{} {}", id, exec(op, api)); if stream_obs() { println!("OB {}", l); std::io::stdout().flush().unwrap(); } l }).collect()
     }).unwrap().join().unwrap_or_else(|_| vec![format!("{} ABORT", id)])
 }
 
@@ -133,7 +159,7 @@ pub fn gen_ops(r: &mut Rng, n: usize, big: bool, noise: u64, max_depth: usize) -
             Op::SArr(d) => { if accept_value(&mut st, &mut done, false) { st.push(Fr::Arr(*d, 0)); } }
             Op::FObj => { if let Some(Fr::Obj(d, i)) = st.last() { if *i == 2 * *d { st.pop(); if st.is_empty() { done = true; } } } }
             Op::FArr => { if let Some(Fr::Arr(d, i)) = st.last() { if *i == *d { st.pop(); if st.is_empty() { done = true; } } } }
-            Op::Fin | Op::Intern(_) => {}
+            Op::Fin | Op::Intern(_) | Op::Reinit => {}
             _ => { let top = st.is_empty(); if accept_value(&mut st, &mut done, is_str) && top { done = true; } }
         }
         ops.push(op);
@@ -150,13 +176,14 @@ fn emit(out: &mut Out, id: usize, api: bool, ops: &[Op], obs: &[String]) {
 }
 
 pub fn run_replay(f: &str, out: &mut Out) {
+    let mut iso = crate::Isolated::new("c03");
     let text = std::fs::read_to_string(f).unwrap();
     let mut id = 0usize; let mut api = false; let mut ops: Vec<Op> = vec![]; let mut n = 0u64; let mut cases = 0u64;
     for line in text.lines() {
         let t: Vec<&str> = line.split_whitespace().collect();
         match t.as_slice() {
             ["CASE", i, _w, m] => { id = i.parse().unwrap(); api = *m == "api"; ops.clear(); }
-            ["END"] => { let obs = run_case(id, api, ops.clone()); n += obs.len() as u64; cases += 1; emit(out, id, api, &ops, &obs); }
+            ["END"] => { let obs = iso.run_block(id, &block_lines(id, api, &ops), ops.len()); n += obs.len() as u64; cases += 1; emit(out, id, api, &ops, &obs); }
             _ => if let Some(op) = parse_op(line) { ops.push(op) },
         }
     }
@@ -171,6 +198,7 @@ pub fn run(a: &Args, out: &mut Out, c02: bool) {
     let mut evals = 0u64; let mut id = 0usize;
     let mut distinct = std::collections::BTreeSet::<String>::new();
     let mut opk = std::collections::BTreeMap::<String, u64>::new(); let mut stk = std::collections::BTreeMap::<String, u64>::new();
+    let mut iso = crate::Isolated::new("c03");
     let mut completed = 0u64; let mut maxout = 0usize; let mut growth = std::collections::BTreeSet::<usize>::new();
     if let Some(c) = &a.corpus { if std::path::Path::new(c).exists() { run_replay(c, out); id = 100000; } }
     for i in 0..ncases {
@@ -178,8 +206,10 @@ pub fn run(a: &Args, out: &mut Out, c02: bool) {
         let api = r.chance(25);
         let c02big = r.chance(20);
         let (n, big, noise, depth) = if c02 { (if c02big { r.range(10, 40) } else { r.range(10, 120) } as usize, c02big, 8, 6) } else { (r.range(3, 40) as usize, r.chance(10), 25, 5) };
-        let ops = gen_ops(&mut r, n, big, noise, depth);
-        let obs = run_case(id, api, ops.clone());
+        let mut ops = gen_ops(&mut r, n, big, noise, depth);
+        // 30%: the case is a SECOND invocation on its thread, after an abandoned / finished / erroneous first one
+        if r.chance(30) { let k = r.range(1, 10) as usize; let d0 = r.range(1, 4) as usize; let mut pre = gen_ops(&mut r, k, false, 30, d0); pre.retain(|o| !matches!(o, Op::Intern(_) | Op::IStr(_))); pre.push(Op::Reinit); pre.extend(ops); ops = pre; }
+        let obs = iso.run_block(id, &block_lines(id, api, &ops), ops.len());
         for (op, o) in ops.iter().zip(&obs) {
             *opk.entry(op_txt(op).split_whitespace().next().unwrap().to_string()).or_insert(0) += 1;
             let p: Vec<&str> = o.split_whitespace().collect();
@@ -195,7 +225,7 @@ pub fn run(a: &Args, out: &mut Out, c02: bool) {
     if thorough && c02 { // one 65536-element array and one 65535-pair... kept to arrays (model cost is quadratic in output size)
         for len in [65535usize, 65536] {
             let mut ops = vec![Op::SArr(len)]; for k in 0..len { ops.push(if k % 1000 == 0 { Op::I32(k as i32) } else { Op::Null }); } ops.push(Op::FArr); ops.push(Op::Fin);
-            let obs = run_case(id, false, ops.clone()); evals += ops.len() as u64; emit(out, id, false, &ops, &obs); id += 1; completed += 1;
+            let obs = iso.run_block(id, &block_lines(id, false, &ops), ops.len()); evals += ops.len() as u64; emit(out, id, false, &ops, &obs); id += 1; completed += 1;
         }
     }
     out.stat("cases", id.into());
